@@ -798,7 +798,8 @@ func checkConfigDecoder(e *Env, p *load.Program) {
 						// are the unsliced result of ReadFile / ReadAll of the opened file (seed C15f: io.LimitReader - a policy
 						// cut at 1 MiB is parsed without complaint and its tail - groups, bad names - is ignored)
 						if call, isCall := in.(*ssa.Call); isCall && flow.Callee(call) == cal && cal.Name() == "NewConfig" && len(call.Call.Args) >= 1 {
-							why := wholeFileBytes(call.Call.Args[0], 0)
+							why := ""
+							withCallSites(p.SrcFuncs(load.PkgSandbox), func() { why = wholeFileBytes(call.Call.Args[0], 0) })
 							r.Check(why == "", "E4.cfgpath", load.FuncName(f)+"/whole-document", p.Pos(call.Pos()), "the parsed document is the whole content of the policy file",
 								"the bytes handed to yaml.NewConfig are not the whole content of the policy file ("+why+"): a policy that continues behind the part that is read is loaded without its tail and without an error, so the loaded policy is not the one the file denotes")
 						}
@@ -953,6 +954,35 @@ func wholeFileBytes(v ssa.Value, depth int) string {
 	case flow.CalleeIs(c, "io", "ReadAll"), flow.CalleeIs(c, "io/ioutil", "ReadAll"):
 		rd := strip(c.Call.Args[0])
 		for i := 0; i < 3; i++ {
+			// a reader handed in by the caller: judged at the call sites (`loadConfig(policyFile, os.Stdin)`)
+			if prm, isParam := rd.(*ssa.Parameter); isParam && callSitesOf != nil && prm.Parent() != nil {
+				idx := -1
+				for k, q := range prm.Parent().Params {
+					if q == prm {
+						idx = k
+					}
+				}
+				sites := callSitesOf(prm.Parent())
+				if idx < 0 || len(sites) == 0 {
+					return "ReadAll of a reader parameter with no call site in sight"
+				}
+				for _, cs := range sites {
+					if idx >= len(cs.Call.Args) {
+						return "ReadAll of a reader parameter"
+					}
+					a := strip(cs.Call.Args[idx])
+					if ld, isLoad := a.(*ssa.UnOp); isLoad && ld.Op == token.MUL {
+						if g, isG := ld.X.(*ssa.Global); isG && g.Pkg != nil && g.Pkg.Pkg.Path() == "os" && g.Name() == "Stdin" {
+							continue
+						}
+					}
+					if oc, isCall := a.(*ssa.Call); isCall && flow.CalleeIs(oc, "os", "Open") {
+						continue
+					}
+					return "ReadAll of a reader parameter that a caller fills with something other than the opened file or standard input"
+				}
+				return ""
+			}
 			// the whole standard input (`-policy -`)
 			if ld, isLoad := rd.(*ssa.UnOp); isLoad && ld.Op == token.MUL {
 				if g, isG := ld.X.(*ssa.Global); isG && g.Pkg != nil && g.Pkg.Pkg.Path() == "os" && g.Name() == "Stdin" {
